@@ -32,16 +32,22 @@ def run(ck, prop, sj, progs, tier):
             gens[(idx[j], tag)] = r
     cons = Consumers("c01", nbins=14, reader_route=True)   # C01 and C03 share the compiled crates
     case_of = {}
-    gen_fail = 0
+    gen_fail = refused = accepted_ext = 0
     for (i, tag), r in gens.items():
         if r["status"] != "ok":
-            gen_fail += 1
+            if progs[i].get("maybe_refused"):
+                refused += 1          # valid GraphQL outside what the generator promises: refusing is allowed
+            else:
+                gen_fail += 1
             continue
+        if progs[i].get("maybe_refused"):
+            accepted_ext += 1
         cid = "p%s_%s" % (progs[i]["hash"], tag)
         cons.add_case(cid, progcheck.PRELUDE + r["tokens"], "MyOp", kinds=("resp",))
         case_of[(i, tag)] = cid
     ck.notes["programs"] = len(progs)
     ck.notes["generation_failed"] = gen_fail
+    ck.notes["extended_class"] = {"refused_by_the_generator": refused, "accepted_and_run_like_any_program": accepted_ext}
     wit = {}
     if prop == "C01":
         for finding, w in ck.witnesses():
@@ -163,7 +169,7 @@ def main_prop(prop, tier, replay=None, selftest=False):
         run(ck, prop, sj, [p], tier)
         return ck.finish(exhaustive=False, rule="replay")
     nsim, limit = (3000, 260) if tier == "quick" else (40000, 3000)
-    sj, progs = progcheck.tlc_program_sample(ck, nsim, limit)
+    sj, progs = progcheck.tlc_program_sample(ck, nsim, limit, ext=(40 if tier == "quick" else 400))
     os.makedirs(os.path.join(vlib.WORK, "c01"), exist_ok=True)
     json.dump(sj, open(os.path.join(vlib.WORK, "c01", "schema.json"), "w"))
     if len(progs) < 40:
